@@ -686,6 +686,10 @@ func apiDump(c *lungo.Catalog) (out string) {
 			sb.WriteByte(',')
 		}
 		ns := c.Namespaces[h]
+		where := make(map[bsonkit.Doc]int, len(ns.Documents.List))
+		for j, d := range ns.Documents.List {
+			where[d] = j
+		}
 		sb.WriteString(`{"docs":[`)
 		for j, d := range ns.Documents.List {
 			if j > 0 {
@@ -715,7 +719,7 @@ func apiDump(c *lungo.Catalog) (out string) {
 			}
 			var pos []int
 			for _, d := range ix.List() {
-				p, ok := ns.Documents.Index[d]
+				p, ok := where[d]
 				if !ok {
 					p = -1
 				}
